@@ -56,6 +56,7 @@ type EngCase struct {
 	NSs         []*namespace.Namespace
 	Tuples      []Tup // in storage order
 	Query       Tup
+	FaultKind   int  // not part of the protocol: which error value the injected fault returns
 	ViaOPL      bool // not part of the protocol: the configuration was accepted by the real OPL parser/type checker
 }
 
